@@ -94,6 +94,7 @@ def build(case):
     ch = Broadcast[Sample[Quantity]](name="c09")
     mw = MovingWindow(size=cap * period, resampled_data_recv=ch.new_receiver(),
                       input_sampling_period=period, align_to=dt(a, zone(case.get("atz"))))
+    mw._c09_channel = ch
     if case["kind"] == "mw":
         n = mw.capacity
         mw._buffer._buffer[:] = [float(JUNK - i) for i in range(n)]
@@ -231,6 +232,53 @@ def _do_update(buf, st, Sample, Quantity, tz=None):
     return False, None
 
 
+class ReceiverFeed:
+    """Feeds samples to a MovingWindow the way production does: through its receiver into the real
+    `_run_impl` task (own event loop, no wall-clock waiting).  A too-old sample makes buffer.update()
+    raise IndexError inside the task, which ends it: that is reported as 'rejected' and the task is
+    started again for the next sample."""
+
+    def __init__(self, mw):
+        import asyncio
+        self.asyncio = asyncio
+        self.mw = mw
+        self.loop = asyncio.new_event_loop()
+        self.sender = mw._c09_channel.new_sender()
+        self.loop.run_until_complete(self._start())
+
+    async def _start(self):
+        self.mw.start()
+
+    async def _feed(self, sample):
+        await self.sender.send(sample)
+        for _ in range(12):                      # the task needs a few turns of the loop, never real time
+            await self.asyncio.sleep(0)
+        rej, crash = False, None
+        dead = [t for t in list(self.mw._tasks) if t.done()]
+        for t in dead:
+            self.mw._tasks.discard(t)
+            exc = None if t.cancelled() else t.exception()
+            if isinstance(exc, IndexError):
+                rej = True
+            elif exc is not None:
+                crash = f"_run_impl ended with {type(exc).__name__}"
+        if dead:
+            self.mw.start()
+        return rej, crash
+
+    def update(self, st, Sample, Quantity, tz):
+        v = st["v"]
+        val = None if v is None else Quantity(float("nan") if v == "nan" else float(v))
+        return self.loop.run_until_complete(self._feed(Sample(dt(st["t"], tz), val)))
+
+    def close(self):
+        try:
+            self.loop.run_until_complete(self.mw.stop())
+        except BaseException:  # noqa: BLE001 - shutting down the scratch loop must never fail a case
+            pass
+        self.loop.close()
+
+
 def run_history(case):
     """Drive the real objects.  A round-trip step (dump/load, pickle, deepcopy) replaces the buffer
     by its copy; the ORIGINAL is kept as a shadow that receives the same later updates, and every
@@ -241,6 +289,16 @@ def run_history(case):
     out = {"cap": mw.capacity, "steps": []}
     via_buffer = case["kind"] != "mw"
     tz, qtz = zone(case.get("tz")), zone(case.get("qtz"))
+    feed = ReceiverFeed(mw) if (case["kind"] == "mw" and case.get("rx")) else None
+    try:
+        return _run_steps(case, mw, shadow, out, via_buffer, tz, qtz, feed)
+    finally:
+        if feed is not None:
+            feed.close()
+
+
+def _run_steps(case, mw, shadow, out, via_buffer, tz, qtz, feed):
+    np, Broadcast, Quantity, MovingWindow, Sample, ORB, ser = _imports()
     for st in case["steps"]:
         crash = []
         if st["op"] == "rt":
@@ -254,7 +312,10 @@ def run_history(case):
                 crash.append(f"round trip ({st.get('how', 'dump')}) raised {type(exc).__name__}")
             rej = False
         else:
-            rej, cr = _do_update(mw._buffer, st, Sample, Quantity, tz)
+            if feed is not None:
+                rej, cr = feed.update(st, Sample, Quantity, tz)
+            else:
+                rej, cr = _do_update(mw._buffer, st, Sample, Quantity, tz)
             if cr:
                 crash.append(cr)
             if shadow is not None:
@@ -515,6 +576,8 @@ def gen_case(rng, nq_lo=2, nq_hi=4, maxlen=40, caps=None):
     a = rng.choice(ALIGNS)
     kind = rng.choice(["list", "numpy", "mw"])
     case = {"cap": cap, "period": p, "align": a, "kind": kind, "steps": []}
+    if kind == "mw" and rng.random() < 0.6:
+        case["rx"] = True      # samples travel through the MovingWindow's receiver and its _run_impl task
     n = rng.choice([1, 2, 3, 4, 5, 6, 8, 10, 12, 16, 20, 30, maxlen])
     n = min(n, maxlen)
     style = rng.choice(["mixed", "mixed", "mixed", "inorder", "gappy", "jumpy"])
@@ -683,6 +746,17 @@ def boundary_cases():
                     {"k": "wi", "s": None, "e": None, "fill": "nan"}, {"k": "at", "t": t}, {"k": "at", "t": t - ph},
                     {"k": "wt", "s": t - 3 * ph, "e": t + ph, "fill": 0}]})
             out.append({"cap": capn, "period": ph, "align": a0, "atz": atz, "kind": kind, "base": a0, "steps": steps})
+    # samples with value None / NaN through the MovingWindow's receiver (_run_impl): None overwriting a
+    # valid slot, None as the newest sample, None far ahead (evicts everything), None too old (rejected)
+    fullq = [{"k": "wi", "s": None, "e": None, "fill": "nan"}, {"k": "ai", "i": -1}, {"k": "ai", "i": 0}]
+    for miss in (None, "nan"):
+        out.append({"cap": 4, "period": p, "align": a, "kind": "mw", "rx": True, "steps": [
+            U(0, 10, q=fullq), U(1, 11, q=fullq), U(2, 12, q=fullq), U(3, 13, q=fullq), U(2, miss, q=fullq),
+            U(4, miss, q=fullq), U(5, 15, q=fullq), U(0, miss, q=fullq), U(20, miss, q=fullq), U(21, 31, q=fullq),
+            U(19, miss, q=fullq), U(2, 99, q=fullq), U(22, 32, q=fullq)]})
+    out.append({"cap": 3, "period": p, "align": a, "kind": "mw", "rx": True, "steps": [
+        U(0, None, q=fullq), {"op": "rt", "how": "dump", "q": fullq}, U(1, 11, q=fullq), U(1, None, q=fullq),
+        U(-5, 5, q=fullq), U(2, 12, q=fullq)]})
     # a caller that modifies what window() returned (empty and non-empty results), then asks again
     e1 = {"k": "wt", "s": a + (B - 30) * p, "e": a + (B - 20) * p, "fill": "nan"}      # covers no slot
     e2 = {"k": "wt", "s": a + (B + 2) * p, "e": a + (B + 2) * p, "fill": "nan"}        # start == end
@@ -902,7 +976,7 @@ class RingStream(Stream):
 
     def labels(self, case, obs):
         out = [f"cap={case['cap']}", f"period_us={case['period']}", f"kind={case['kind']}",
-               f"align={'epoch' if case['align'] == 0 else 'offset'}", f"tz={case.get('tz', 'utc')}", f"align_tz={case.get('atz', 'utc')}",
+               f"align={'epoch' if case['align'] == 0 else 'offset'}", f"tz={case.get('tz', 'utc')}", f"align_tz={case.get('atz', 'utc')}", f"mw_receiver_path={bool(case.get('rx'))}",
                f"updates={min(10 * (len(case['steps']) // 10), 40)}+"]
         p, a, cap = case["period"], case["align"], obs["cap"]
         newest = None
